@@ -356,12 +356,12 @@ class AccessMixin:
         if isinstance(key, VNone):
             k = z3.IntVal(-1)      # None is never an integer key: model as the impossible key -1
         else:
-            k = self.key_term(key)
-        self.dict_facts(p, d.t, k)
+            k = self.key_term(key, p)
         dom = z3.Select(harr(p, '$dom'), d.t, k)
         val = z3.Select(harr(p, '$val'), d.t, k)
         if fc.spec:
             return [Res(p, VRef(val))]
+        self.dict_facts(p, d.t, k)
         rs = []
         if feasible(p, z3.Not(dom)):
             q = p.fork()
